@@ -148,6 +148,12 @@ scratch_pad * scratch_pad_new(mmd_engine * e, short format) {
 		p->skip_token = 0;						// Skip over next n tokens
 		p->close_para = true;
 
+		// No table yet
+		p->in_table_header = 0;
+		p->table_column_count = 0;
+		p->table_cell_count = 0;
+		memset(p->table_alignment, '\0', kMaxTableColumns);
+
 		p->extensions = e->extensions;
 		p->output_format = format;
 		p->quotes_lang = e->quotes_lang;
